@@ -8,6 +8,9 @@ BaseCfg == [policy |-> "All", drain |-> "None", retries |-> None, ver |-> 5, pin
 
 Cfg_One == {BaseCfg}
 Cfg_Policies == {[BaseCfg EXCEPT !.policy = p, !.drain = d] : p \in {"All", "Ack", "Q1", "None"}, d \in {"None", "One"}}
+Cfg_Policies4 == {[BaseCfg EXCEPT !.policy = p] : p \in {"All", "Ack", "Q1", "None"}}
+Cfg_Retries == {[BaseCfg EXCEPT !.retries = r] : r \in {None, 0, 1}}
+Cfg_AliasIn == {[BaseCfg EXCEPT !.tamIn = 1]}
 Cfg_PoliciesRetries == {[BaseCfg EXCEPT !.policy = p, !.retries = r] : p \in {"All", "None"}, r \in {None, 0, 1}}
 Cfg_BigConnect == {[BaseCfg EXCEPT !.connectUnits = 2]}
 Cfg_KeepAlive == {[BaseCfg EXCEPT !.ka = k, !.pingTmo = pt] : k \in {0, 1, 2}, pt \in {1, 3}}
